@@ -64,6 +64,15 @@ Theorem C03_update_rejects : forall t pos ins del s,
 Proof. exact update_rejects_prop. Qed.
 Print Assumptions C03_update_rejects.
 
+(* in range, but a deleted line carries the merge mark with a tick other than the operation's: updateTime
+   panics ("previousTime cannot be TreeMergeMark"); together with C03_update_refines, C03_update_rejects and
+   C03_update_empty_request this decides every request whose new length fits a uint32 *)
+Theorem C03_update_mark_conflict : forall t pos ins del s,
+  WF s -> in_rangeb t pos ins del (flatten s) = true -> mark_okb t pos del (flatten s) = false ->
+  exists c, update t pos ins del s = Panic c.
+Proof. exact update_mark_conflict. Qed.
+Print Assumptions C03_update_mark_conflict.
+
 (* the only request outside [0, Len] that does not panic is the empty one, and it changes nothing *)
 Theorem C03_update_empty_request : forall t pos s,
   0 <= t < MaxU32 -> 0 <= pos <= MaxU32 -> update t pos 0 0 s = Ok (s, []).
@@ -131,6 +140,10 @@ Proof. vm_compute. reflexivity. Qed.
 Example C03_ex_sequence :
   ops_validb (repeat 3 (Z.to_nat 6)) [(4, 2, 2, 1); (16383, 0, 3, 2); (16383, 1, 0, 2); (5, 1, 1, 4)] = true.
 Proof. vm_compute. reflexivity. Qed.
+Example C03_ex_mark_conflict :
+  in_rangeb 9 0 0 2 [16383; 5; 5] = true /\ mark_okb 9 0 2 [16383; 5; 5] = false /\
+  update 9 0 0 2 [(0, 16383); (1, 5); (3, TreeEnd)] = Panic PMark.
+Proof. vm_compute. repeat split. Qed.
 Example C03_ex_mark_silent :
   exists s ds, update 16383 1 2 3 ex_state = Ok (s, ds) /\ ds = [].
 Proof. eexists. eexists. vm_compute. split; reflexivity. Qed.
